@@ -1,5 +1,6 @@
 import Driver.Common
 import GqlModel.SchemaBuild
+import GqlModel.SchemaBuildBridge
 /-! Driver for C11.
 request  `{"config": CFG, "appendOrder": [TREF…], "real": DUMP?}`
 response `{"wf": bool, "outcome": OUTCOME, "real": {"consistent": b, "parts": {...}}?}` where
@@ -11,7 +12,7 @@ TREF = null | n (type object id) | {"list": TREF} | {"nonNull": TREF} | {"nilptr
 CFG  = {"types":[TYPE…], "query": id|null, "mutation":…, "subscription":…, "extra":[TREF…], "directives":[DIR|null…]}
 DUMP = {"table":[BTYPE…], "typeMap":[[key,id]…], "query":…, "mutation":…, "subscription":…,
         "possibleTypes":[[a,[o…]]…], "isPossible":[[a,o]…]} -/
-open Lean GqlModel.SchemaBuild
+open Lean GqlModel GqlModel.SchemaBuild
 
 namespace Driver.C11
 
@@ -127,7 +128,7 @@ def encBField (f : BField) : Json :=
 def encBType (t : BType) : Json :=
   Json.mkObj [("kind", encKind t.kind), ("name", t.name), ("fields", Json.arr (t.fields.map encBField).toArray),
     ("inputFields", Json.arr (t.inputFields.map encBArg).toArray), ("interfaces", encNats t.interfaces),
-    ("members", encNats t.members)]
+    ("members", encNats t.members), ("values", Json.arr (t.values.map Json.str).toArray), ("resolver", t.resolver)]
 
 def encDump (s : BuiltSchema) : Json :=
   Json.mkObj [("table", Json.arr (s.table.map encBType).toArray),
@@ -135,7 +136,8 @@ def encDump (s : BuiltSchema) : Json :=
     ("query", encOptNat s.query), ("mutation", encOptNat s.mutation), ("subscription", encOptNat s.subscription),
     ("possibleTypes", Json.arr (s.possibleTypes.map (fun p => Json.arr #[encNat p.1, encNats p.2])).toArray),
     ("isPossible", Json.arr (s.isPossible.map (fun p => Json.arr #[encNat p.1, encNat p.2])).toArray),
-    ("directiveArgs", Json.arr (s.directiveArgs.map encTRef).toArray)]
+    ("directives", Json.arr (s.directives.map (fun d =>
+      Json.mkObj [("name", d.1), ("args", Json.arr (d.2.map encBArg).toArray)])).toArray)]
 
 def decBArg (j : Json) : Except String BArg := do
   return { name := ← Driver.getStr j "name", type := ← typeD j "type" }
@@ -145,7 +147,8 @@ def decNats (j : Json) (k : String) : Except String (List Nat) := (arrD j k).map
 def decBType (j : Json) : Except String BType := do
   return { kind := ← decKind (← Driver.getStr j "kind"), name := ← Driver.getStr j "name",
            fields := ← (arrD j "fields").mapM decBField, inputFields := ← (arrD j "inputFields").mapM decBArg,
-           interfaces := ← decNats j "interfaces", members := ← decNats j "members" }
+           interfaces := ← decNats j "interfaces", members := ← decNats j "members",
+           values := ← (arrD j "values").mapM (fun v => v.getStr?), resolver := boolD j "resolver" false }
 
 def decDump (j : Json) : Except String BuiltSchema := do
   let tm ← (arrD j "typeMap").mapM (fun p => do
@@ -162,7 +165,40 @@ def decDump (j : Json) : Except String BuiltSchema := do
     | _ => throw "isPossible entry must be [a,o]")
   return { table := ← (arrD j "table").mapM decBType, typeMap := tm, query := ← optNatD j "query",
            mutation := ← optNatD j "mutation", subscription := ← optNatD j "subscription",
-           possibleTypes := pt, isPossible := ip, directiveArgs := ← (arrD j "directiveArgs").mapM decTRef }
+           possibleTypes := pt, isPossible := ip,
+           directives := ← (arrD j "directives").mapM (fun d => do
+             return (← Driver.getStr d "name", ← (arrD d "args").mapM decBArg)) }
+
+/-! the translated schema (`BuiltSchema.toSchema`) in the style of the gq wire format -/
+
+def encArgDef (a : ArgDef) : Json := Json.mkObj [("name", a.name), ("type", a.type.render)]
+def encFieldDef (f : FieldDefS) : Json :=
+  Json.mkObj [("name", f.name), ("type", f.type.render), ("args", Json.arr (f.args.map encArgDef).toArray)]
+def strs (l : List String) : Json := Json.arr (l.map Json.str).toArray
+
+def encTypeDef : TypeDef → Json
+  | .scalar n k _ => Json.mkObj [("kind", "SCALAR"), ("name", n),
+      ("builtin", match k with | .custom .. => false | _ => true)]
+  | .object n ifs fs b _ => Json.mkObj [("kind", "OBJECT"), ("name", n), ("interfaces", strs ifs),
+      ("fields", Json.arr (fs.map encFieldDef).toArray), ("isTypeOf", b)]
+  | .interface n fs b _ => Json.mkObj [("kind", "INTERFACE"), ("name", n),
+      ("fields", Json.arr (fs.map encFieldDef).toArray), ("resolveType", b)]
+  | .union n ms b _ => Json.mkObj [("kind", "UNION"), ("name", n), ("members", strs ms), ("resolveType", b)]
+  | .enum n vs _ => Json.mkObj [("kind", "ENUM"), ("name", n), ("values", strs (vs.map (·.name)))]
+  | .inputObject n fs _ => Json.mkObj [("kind", "INPUT_OBJECT"), ("name", n),
+      ("inputFields", Json.arr (fs.map (fun f => Json.mkObj [("name", f.name), ("type", f.type.render)])).toArray)]
+
+def encOptStr : Option String → Json
+  | none => Json.null
+  | some s => Json.str s
+
+def encSchema (s : Schema) : Json :=
+  Json.mkObj [("query", s.query), ("mutation", encOptStr s.mutation), ("subscription", encOptStr s.subscription),
+    ("types", Json.arr (s.types.map encTypeDef).toArray),
+    ("directives", Json.arr (s.directives.map (fun d =>
+      Json.mkObj [("name", d.name), ("args", Json.arr (d.args.map encArgDef).toArray)])).toArray),
+    ("possible", Json.arr ((s.types.filter (fun t => s.isAbstract t.name)).map (fun t =>
+      Json.mkObj [("abstract", t.name), ("types", strs (s.possibleTypes t.name))])).toArray)]
 
 def encParts (s : BuiltSchema) : Json :=
   Json.mkObj [("names", s.namesOk), ("closed", s.closed), ("builtins", s.hasBuiltins), ("positions", s.positionsOk),
@@ -198,7 +234,8 @@ def outcome (cfg : Config) (order : List TRef) : Json :=
       ("assertErrs", Json.arr ((assertErrSet cfg order).map (fun e => Json.str (encErr e))).toArray)]
   | .ok s =>
     let d := dump cfg s
-    Json.mkObj [("ok", true), ("dump", encDump d), ("consistent", d.Consistent), ("parts", encParts d)]
+    Json.mkObj [("ok", true), ("dump", encDump d), ("consistent", d.Consistent), ("parts", encParts d),
+      ("schema", encSchema d.toSchema)]
 
 /-- the configuration is one the Go API can express: ids in range, interfaces are interfaces, members and roots are
 objects, keys of every map unique -/
@@ -214,7 +251,7 @@ def wellFormed (cfg : Config) : Bool :=
     | .list t => okRef t
     | .nonNull t => okRef t
     | _ => true
-  cfg.wellTyped &&
+  cfg.wellTyped && cfg.mapsOk &&
   (match cfg.query with | some q => okId .object q | none => true) &&
   (match cfg.mutation with | some q => okId .object q | none => true) &&
   (match cfg.subscription with | some q => okId .object q | none => true) &&
